@@ -180,6 +180,13 @@ def kani_codegen(hdir, features, target, groups=10):
                 if os.path.exists(base + ext):
                     shutil.copy(base + ext, keep)
             h["symtab"] = os.path.join(keep, os.path.basename(h["symtab"]))
+        # the harness crate's own build output (one directory of symbol tables per feature set, 0.2-1 GB each)
+        # is never reused -- the sources are regenerated on every run -- so it is dropped here; the
+        # dependencies' artefacts, which are what the cache is for, stay
+        for i in range(k):
+            tdir = "%s-g%02d" % (target, i) if k > 1 else target
+            for d in glob.glob(os.path.join(tdir, "kani", "*", "debug", "build", "mvh", "*")):
+                shutil.rmtree(d, ignore_errors=True)
         fcntl.flock(lk, fcntl.LOCK_UN)
     return hs, time.time() - t0, "", []
 
